@@ -109,6 +109,10 @@ var c18Faults = []faultKind{
 	{name: "typed-enum-non-primitive", schema: jsonx.Obj{{K: "type", V: "string"}, {K: "enum", V: []any{jsonx.Obj{{K: "x", V: jsonx.N(1)}}}}}},
 	{name: "null-subschema", schema: nil},
 	{name: "ref-to-unparsable-file", schema: jsonx.Obj{{K: "$ref", V: "./broken.json"}}, files: []batch.File{{Path: "broken.json", Data: []byte(`{"type": "object", `)}}},
+	// a whole-file reference to documents that have no root schema to refer to
+	{name: "ref-to-rootless-file", schema: jsonx.Obj{{K: "$ref", V: "./defsonly.json"}}, files: []batch.File{{Path: "defsonly.json", Data: []byte(`{"$defs":{"X":{"type":"string"}}}`)}}},
+	{name: "ref-to-rootless-file-with-id", schema: jsonx.Obj{{K: "$ref", V: "./idonly.json"}}, files: []batch.File{{Path: "idonly.json", Data: []byte(`{"$id":"https://example.com/idonly","definitions":{"X":{"type":"object","properties":{"a":{"type":"string"}}}}}`)}}},
+	{name: "ref-to-empty-object-file", schema: jsonx.Obj{{K: "$ref", V: "./empty.json"}}, files: []batch.File{{Path: "empty.json", Data: []byte(`{}`)}}},
 }
 
 var rePanic = regexp.MustCompile(`(?m)^(panic:|fatal error:|goroutine \d+ \[|runtime error:|\[signal )`)
